@@ -7,6 +7,7 @@ package props
 import (
 	"encoding/json"
 	"fmt"
+	"sync"
 	"testing"
 	"time"
 
@@ -45,6 +46,9 @@ type c08Scenario struct {
 	// persisted, once - the vBucket is quiet afterwards.
 	Mid   bool `json:"mid,omitempty"`
 	Mitig bool `json:"mitig,omitempty"`
+	// Immediate: the node sends the events directly behind the success response of the re-request (a backfill from disk
+	// follows the response in the same flush), not after the client's OpenStream has returned
+	Immediate bool `json:"immediate,omitempty"`
 }
 
 func c08Exec(sc c08Scenario) (detail string, labels map[string]bool) {
@@ -66,6 +70,28 @@ func c08Exec(sc c08Scenario) (detail string, labels map[string]bool) {
 	c.Failover[vb] = fl
 	for v := 0; v < 64; v++ {
 		c.High[uint16(v)] = high
+	}
+	var evMu sync.Mutex
+	var wantEv []c08Event
+	evSent := false
+	sendEvents := func(s *simnode.Stream) {
+		evMu.Lock()
+		defer evMu.Unlock()
+		if evSent {
+			return
+		}
+		evSent = true
+		wantEv = c08SendEvents(sc, s, labels)
+	}
+	nOpen := 0
+	if sc.Immediate && sc.Second == "ok" {
+		c.OnStreamOpen = func(s *simnode.Stream) {
+			nOpen++
+			if (sc.Mid && nOpen == 2) || (!sc.Mid && nOpen == 1) { // the stream opened by the re-request after the rollback
+				sendEvents(s)
+			}
+		}
+		labels["events_directly_behind_the_success_response"] = true
 	}
 	nReq := 0
 	c.OnStreamReq = func(r simnode.StreamReq) simnode.StreamReply {
@@ -226,9 +252,35 @@ func c08Exec(sc c08Scenario) (detail string, labels map[string]bool) {
 		return "no open stream on the node after the re-request", labels
 	}
 	// the new branch streams its events; then the server ends the stream cleanly (sync point)
+	if !sc.Immediate {
+		sendEvents(s)
+	} else {
+		// (the node sends them right after its response; the client may be back from Open before that)
+		for dl := time.Now().Add(10 * time.Second); time.Now().Before(dl); time.Sleep(200 * time.Microsecond) {
+			evMu.Lock()
+			done := evSent
+			evMu.Unlock()
+			if done {
+				break
+			}
+		}
+	}
+	evMu.Lock()
+	want := append([]c08Event(nil), wantEv...)
+	evMu.Unlock()
+	s.End(memd.StreamEndOK)
+	select {
+	case <-stopCh:
+	case <-time.After(15 * time.Second):
+		return fmt.Sprintf("events and the clean stream end were sent but the stream never finished (consumer has %d events)", len(cons.snapshot())), labels
+	}
+	return c08Judge(sc, cons, want, labels, func() { closed = true; within(30*time.Second, func() { st.Close(false) }) })
+}
+
+// c08SendEvents streams the scenario's events on the given stream and returns the document events the consumer must see.
+func c08SendEvents(sc c08Scenario, s *simnode.Stream, labels map[string]bool) (want []c08Event) {
 	var snapEnd uint64
 	last := sc.R
-	var want []c08Event
 	for i, ev := range sc.Events {
 		if ev.Kind == "adv" {
 			s.SeqNoAdvanced(ev.Seq)
@@ -272,12 +324,10 @@ func c08Exec(sc c08Scenario) (detail string, labels map[string]bool) {
 			}
 		}
 	}
-	s.End(memd.StreamEndOK)
-	select {
-	case <-stopCh:
-	case <-time.After(15 * time.Second):
-		return fmt.Sprintf("events and the clean stream end were sent but the stream never finished (consumer has %d events)", len(cons.snapshot())), labels
-	}
+	return want
+}
+
+func c08Judge(sc c08Scenario, cons *fakeConsumer, want []c08Event, labels map[string]bool, closeStream func()) (string, map[string]bool) {
 	got := cons.snapshot()
 	newUUID := sc.Log[0][0]
 	for i := 0; i < len(got) || i < len(want); i++ {
@@ -300,8 +350,7 @@ func c08Exec(sc c08Scenario) (detail string, labels map[string]bool) {
 			return fmt.Sprintf("seq %d delivered with offset %+v", got[i].Seq, got[i].Off), labels
 		}
 	}
-	closed = true
-	within(30*time.Second, func() { st.Close(false) })
+	closeStream()
 	return "", labels
 }
 
@@ -384,6 +433,7 @@ func c08Gen(t *rapid.T) c08Scenario {
 		}
 	}
 	sc.Colls = rapid.SliceOfNDistinct(rapid.Uint32Range(8, 12), 0, 2, func(u uint32) uint32 { return u }).Draw(t, "colls")
+	sc.Immediate = rapid.IntRange(0, 2).Draw(t, "immediate") == 0
 	sc.Mid = rapid.IntRange(0, 3).Draw(t, "mid") == 0
 	sc.Mitig = rapid.IntRange(0, 2).Draw(t, "mitig") == 0
 	return sc
